@@ -2420,15 +2420,21 @@ impl KotoVm {
         rhs: KValue,
         op: KValue,
     ) -> Result<bool> {
+        // The registers used by the call are discarded once the call is complete
+        let register_count = self.registers.len();
         self.call_overridden_op_2(None, lhs, rhs, op)?;
         self.frame_mut().execution_barrier = true;
         match self.execute_instructions() {
-            Ok(result) => match result {
-                KValue::Bool(result) => Ok(result),
-                unexpected => unexpected_type("Bool", &unexpected),
-            },
+            Ok(result) => {
+                self.registers.truncate(register_count);
+                match result {
+                    KValue::Bool(result) => Ok(result),
+                    unexpected => unexpected_type("Bool", &unexpected),
+                }
+            }
             Err(error) => {
                 self.pop_frame(KValue::Null)?;
+                self.registers.truncate(register_count);
                 Err(error)
             }
         }
@@ -4334,6 +4340,9 @@ mod macros {
         ($self:expr, $op:ident, $op_rhs:ident, $trait_fn:ident, $trait_fn_rhs:ident, $map:expr, $lhs:expr, $rhs:expr, $result_register:expr) => {{
             let op = $map.get_meta_value(&$op.into()).unwrap();
 
+            // The registers used by the call are discarded once the call is complete
+            let register_count = $self.registers.len();
+
             // Call the map's op function
             $self.call_overridden_op_2(
                 Some($result_register),
@@ -4346,10 +4355,14 @@ mod macros {
             // - Enable the execution barrier on the function's frame so errors aren't propagated
             $self.frame_mut().execution_barrier = true;
             match $self.execute_instructions() {
-                Ok(result) => result,
+                Ok(result) => {
+                    $self.registers.truncate(register_count);
+                    result
+                }
                 Err(error) => {
                     // Pop the frame given that an error has been thrown
                     $self.pop_frame(KValue::Null)?;
+                    $self.registers.truncate(register_count);
                     // Check for a `koto.unimplemented` error
                     let ErrorKind::KotoError { thrown_value, .. } = &error.error else {
                         // A non-unimplemented error was thrown, so propagate it
